@@ -4,7 +4,8 @@ import re
 from lib import coq_term_str as S, coq_list as L, coq_nat as N
 
 THEOREMS = ['C19_earley_matches_supported', 'C19_M_earley_sound', 'C19_M_earley_ok', 'C19_M_earley_complete',
-            'C19_recons_token_roundtrip_earley_partial', 'C19_write_tokens_yield', 'C19_recons_token_sound', 'C19_recons_token_roundtrip_partial', 'C19_recons_token_roundtrip',
+            'C19_recons_token_roundtrip_earley', 'C19_resolve_selector_exists', 'C19_join_spec', 'C19_relex',
+            'C19_char_roundtrip_partial', 'C19_write_tokens_yield', 'C19_recons_token_sound', 'C19_recons_token_roundtrip_partial', 'C19_recons_token_roundtrip',
             'C19_match_exists', 'C19_matcher_accepts', 'C19_text', 'C19_H_relex_refuted', 'C19_example']
 GEN_DEPS = []
 RULE = ('seeded random grammars of the supported class (statement / expression / list / program skeletons and prefix-guarded '
@@ -31,6 +32,8 @@ ASSUMPTIONS = ['maybe_placeholders=False, term_subs empty, no postlex, no templa
                'tokens); H_relex is refuted in general (F12)']
 
 IMPORTS = 'From LV Require Import Base.Prelude Cfg.Grammar Recons.Recons Recons.ReconsCheck Recons.Text.'
+RX_IMPORTS = ('From LV Require Import Base.Prelude Lex.LexerBase Lex.Lexer Lex.LexerCheck Recons.Recons Recons.Relex '
+              'Recons.RelexCheck.')
 
 F12_KEY = 'F12:adjacent-tokens-relex'
 F13_KEY = 'C19-F13:shared-alias-two-origins'
@@ -127,9 +130,9 @@ def model_inputs(parser):
 class Obs:
     """one Reconstructor with match_tree / write_tokens.transform wrapped"""
 
-    def __init__(self, parser):
+    def __init__(self, parser, term_subs=None):
         from lark.reconstruct import Reconstructor
-        self.rec = Reconstructor(parser)
+        self.rec = Reconstructor(parser, {k: (lambda sym, v=v: v) for k, v in (term_subs or {}).items()})
         self.matches = []
         rec = self.rec
         orig_match = rec.match_tree
@@ -161,7 +164,9 @@ class Obs:
         """-> (matches, items, text, exception-name)"""
         self.matches = []
         try:
-            items = with_timeout(20, lambda: [str(x) for x in self.rec._reconstruct(tree)])
+            raw = with_timeout(20, lambda: list(self.rec._reconstruct(tree)))
+            self.typed = [(str(getattr(x, 'type', '')) or None, str(x)) for x in raw]
+            items = [str(x) for x in raw]
         except Exception as e:   # noqa
             return list(self.matches), None, None, type(e).__name__
         # spacing rule exactly as reconstruct() does it, on the same items (a second generator run would
@@ -387,7 +392,7 @@ def c_citems(nm, items, kids):
     return L(out)
 
 
-def c_case(rules, lits, d_rules, d_rfr, in_class, need_sup, runs, plain=None):
+def c_case(rules, lits, d_rules, d_rfr, in_class, need_sup, runs, plain=None, subs=None):
     nm = Names()
     # number every name first so that the per-name table of rules_for_root is complete
     for r in rules:
@@ -405,7 +410,9 @@ def c_case(rules, lits, d_rules, d_rfr, in_class, need_sup, runs, plain=None):
     P = L(['(mkP %d %s %s %s)' % (nm(r['origin']), L([c_sym(nm, s) for s in r['exp']]),
                                    ('(Some %d)' % nm(r['alias'])) if r['alias'] else 'None',
                                    'true' if r['expand1'] else 'false') for r in rules])
-    lit = L(['(%d, %s)' % (nm(k), S(v)) for k, v in sorted(lits.items())])
+    # term_subs entries come first: lookup_lit takes the first entry, i.e. Relex.lit_subs (Char_proofs.lookup_lit_app)
+    lit = L(['(%d, %s)' % (nm(k), S(v)) for k, v in sorted((subs or {}).items())] +
+            ['(%d, %s)' % (nm(k), S(v)) for k, v in sorted(lits.items())])
     er = L([c_rrule(nm, r) for r in d_rules])
     runs_s = []
     for tree, ms, items, text in runs:
@@ -797,6 +804,46 @@ def mixed_literal(ms):
     return any(len(v) == 2 for v in seen.values())
 
 
+def relex_case(pbasic, lits, typed, text):
+    """character-level case: lark's BasicLexer on the reconstructed text against the written (type, text) tokens, with the
+    table of Python re matches on that text (the regex oracle of the lexer model, as in C07) -> Coq term or None"""
+    import lark
+    from props import C07
+    tdefs = list(pbasic.terminals)
+    model = C07.tdefs_to_model(tdefs)
+    if any(not (isinstance(t['prio'], int)) for t in model) or any(ord(ch) > 126 or ord(ch) < 32 for ch in text):
+        return None
+    names = [t['name'] for t in model]
+    idx = {n: i for i, n in enumerate(names)}
+    written = []
+    for ty, tx in typed:
+        if ty is None:
+            # a re-inserted filtered string: its terminal is the one defined by that literal
+            cands = [n for n, v in lits.items() if v == tx and n in idx]
+            if len(cands) != 1:
+                return None
+            ty = cands[0]
+        if ty not in idx:
+            return None
+        written.append((idx[ty], tx))
+    try:
+        lexed = [(str(t.type), str(t)) for t in pbasic.lex(text)]
+        lark_toks = [(idx[a], b) for a, b in lexed]
+    except lark.exceptions.LarkError:
+        lark_toks = None
+    except KeyError:
+        return None
+    relex = lark_toks is not None and lark_toks == written
+    tab, unl = C07.re_tables(tdefs, text, False)
+
+    def toks(l):
+        return L(['(%d, %s)' % (a, S(b)) for a, b in l])
+    return '(mkRx %s %s %s %s %s %s %s %s %s)' % (
+        L([C07.coq_term(t) for t in model]), L([S(str(x)) for x in pbasic.ignore_tokens]), L([S(n) for n in names]),
+        S(text), C07.coq_tab(tab), C07.coq_unl(unl), toks(written), 'true' if relex else 'false',
+        ('(Some %s)' % toks(lark_toks)) if lark_toks is not None else 'None'), relex
+
+
 def judge(p0, parsers, kind0, pbasic, tx, snap, items, text, exc):
     """the property's oracle on one reconstruct() result -> (verdict or None, relex_ok)"""
     import lark
@@ -831,7 +878,7 @@ def judge(p0, parsers, kind0, pbasic, tx, snap, items, text, exc):
     return verdict, relex_ok
 
 
-def build_case(ctx, rng, gtext, nsent, stream, wide=False, fixed_inputs=None, kinds=('lalr', 'earley')):
+def build_case(ctx, rng, gtext, nsent, stream, wide=False, fixed_inputs=None, kinds=('lalr', 'earley'), term_subs=None):
     """returns dict(case=coq term or None, meta=..., violations=[...]) ; never raises for grammar errors"""
     import lark
     res = dict(case=None, meta=None, viol=[], ok=False)
@@ -845,7 +892,7 @@ def build_case(ctx, rng, gtext, nsent, stream, wide=False, fixed_inputs=None, ki
             # the class predicates only need the compiled rules: decide before building the other engines
             rules, lits = model_inputs(next(iter(parsers.values())))
             coq_cls = class_coq(rules)
-            extra = class_extra(rules, lits)
+            extra = class_extra(rules, dict(lits, **(term_subs or {})))
             if not wide and not (coq_cls and extra is None):
                 res['rejected'] = extra or 'class_b'
                 return res
@@ -855,14 +902,14 @@ def build_case(ctx, rng, gtext, nsent, stream, wide=False, fixed_inputs=None, ki
     p0 = parsers[kind0]
     rules, lits = model_inputs(p0)
     coq_cls = class_coq(rules)
-    extra = class_extra(rules, lits)
+    extra = class_extra(rules, dict(lits, **(term_subs or {})))
     in_class = coq_cls and extra is None
     try:
         pex = make_parser(gtext, 'earley', ambiguity='explicit')
     except Exception:   # noqa
         pex = None
     try:
-        obs = Obs(p0)
+        obs = Obs(p0, term_subs)
     except Exception as e:  # noqa
         res['errors'] = ['Reconstructor: %s' % type(e).__name__]
         return res
@@ -953,6 +1000,13 @@ def build_case(ctx, rng, gtext, nsent, stream, wide=False, fixed_inputs=None, ki
                   outcome=('ok' if verdict is None else verdict.split(' raised')[0]))
         if exc is None:
             runs.append((snap, ms, items, text))
+            if pbasic is not None and len(res.setdefault('relex_cases', [])) < 2:
+                try:
+                    rc = relex_case(pbasic, lits, obs.typed, text)
+                except Exception:   # noqa
+                    rc = None
+                if rc is not None:
+                    res['relex_cases'].append(rc)
         if not amb:
             accepted.append((tx, tree, snap, text, exc, verdict))
         hist.append(tx)
@@ -968,7 +1022,7 @@ def build_case(ctx, rng, gtext, nsent, stream, wide=False, fixed_inputs=None, ki
             rng.shuffle(rest)
             order = order[:1] + rest
         try:
-            obs2 = Obs(p0)
+            obs2 = Obs(p0, term_subs)
         except Exception:   # noqa
             break
         hist2 = []
@@ -997,7 +1051,7 @@ def build_case(ctx, rng, gtext, nsent, stream, wide=False, fixed_inputs=None, ki
     res['meta'] = dict(grammar=gtext, parser=kind0, inputs=[tx for tx, _ in res.get('inputs', [])],
                        rules=len(rules), derived=len(d_rules), rules_mutated=res.get('rules_mutated'))
     try:
-        res['case'] = c_case(rules, lits, d_rules, d_rfr, coq_cls, in_class and not wide, runs)
+        res['case'] = c_case(rules, lits, d_rules, d_rfr, coq_cls, in_class and not wide, runs, subs=term_subs)
     except ValueError as e:
         res['errors'] = ['emit: %s' % e]
     res['ok'] = True
@@ -1015,6 +1069,14 @@ EXOTIC = [
      '?x: _l with three children is not collapsed by the parser, but no tree-matching rule accepts Tree(x)'),
     (F16_KEY, 'start: r\n?r: "%" r NUMBER+ "pr" | NAME\nNAME: /[a-z]+/\nNUMBER: /[0-9]+/\n%ignore " "\n', '% a 1 2 pr',
      'the rules of rules_for_root[r] are also usable below the root: r[a,1,2] is matched as r[r[a,1],2] flattened'),
+]
+
+
+TERM_SUBS = [
+    ('start: stmt (_SEP stmt)*\nstmt: NAME "=" value\nvalue: NAME | NUMBER | "(" NAME ")" -> par\n_SEP: /;+/\n'
+     'NAME: /[a-z]+/\nNUMBER: /[0-9]+/\n%ignore " "\n', {'_SEP': ';'}, ['a = b', 'a = 1 ;; b = ( c ) ; d = e']),
+    ('start: item+\nitem: NAME _ARROW NAME _DOTS? -> edge | "[" NAME "]" -> node\n_ARROW: /-+>/\n_DOTS: /\\.{2,}/\n'
+     'NAME: /[a-z]+/\n%ignore " "\n', {'_ARROW': '->', '_DOTS': '...'}, ['a --> b [ c ] d -> e ....', '[ x ]']),
 ]
 
 
@@ -1117,8 +1179,9 @@ def lex_case(gtext, texts):
 def correspond(ctx):
     rng = ctx.rng
     lex_cases = []
-    n_class = ctx.scale(100, 700) * (3 if ctx.widen else 1)
-    n_wide = ctx.scale(40, 250)
+    rx_cases, rx_meta = [], []
+    n_class = ctx.scale(75, 700) * (3 if ctx.widen else 1)
+    n_wide = ctx.scale(30, 250)
     cases, metas = [], []
     rejected = {}
     tried = 0
@@ -1149,6 +1212,11 @@ def correspond(ctx):
         if r['case']:
             cases.append(r['case'])
             metas.append(r['meta'])
+        for rc, ok in r.get('relex_cases', []):
+            if len(rx_cases) < ctx.scale(70, 1200):
+                rx_cases.append(rc)
+                rx_meta.append((g, r['meta']['inputs']))
+                ctx.count('relex', key=rc, nontrivial=True, H_relex=ok)
         if 'NAME:' not in g and 'NUMBER:' not in g:
             txs = [tx for tx, _ in r.get('inputs', [])]
             for lc in lex_case(g, txs + [t.replace(' ', '') for t in txs]):
@@ -1190,6 +1258,18 @@ def correspond(ctx):
         if r['ok'] and r['case']:
             cases.append(r['case'])
             metas.append(r['meta'])
+        for rc, ok in (r.get('relex_cases', []) if r['ok'] else []):
+            rx_cases.append(rc)
+            rx_meta.append((g, [text]))
+            ctx.count('relex', key=rc, nontrivial=True, H_relex=ok)
+    # term_subs: filtered regexp terminals written through WriteTokensTransformer.term_subs
+    for g, subs, inputs in TERM_SUBS:
+        r = build_case(ctx, rng, g, 0, 'term_subs', fixed_inputs=inputs, kinds=('lalr',), term_subs=subs)
+        if r['ok'] and r['case']:
+            cases.append(r['case'])
+            metas.append(r['meta'])
+            for v in r['viol']:
+                ctx.violation('roundtrip-oracle', v, True, v['detail'])
     # the mini-lexer model used by H_relex_refuted against lark's basic lexer (literal-only grammars and F12)
     for lc in lex_case(EXOTIC[0][1], ['+ +', '++', '+++', '+ ++ +']):
         lex_cases.append(lc)
@@ -1201,7 +1281,18 @@ def correspond(ctx):
         ctx.violation('correspondence:Recons/Text.minilex vs lark BasicLexer (string terminals)',
                       dict(no_longer_checks='mini-lexer model agreement', case=lex_cases[i][:600]), False,
                       'the literal-only lexer model and lark.lex disagree')
-    bad, errs = ctx.coq_bad_indices('c19', IMPORTS, 'check_case', cases, chunk=ctx.scale(40, 60))
+    # character level: bc_b / lex_model of the BasicLexer model against lark's lexer on the reconstructed texts
+    from props import C07 as _C07
+    badx, errx = ctx.coq_bad_indices('c19rx', RX_IMPORTS, 'check_relex', rx_cases, chunk=ctx.scale(18, 60),
+                                     extra_defs=_C07.extra_defs())
+    for e in errx:
+        ctx.violation('correspondence:coq-eval', {'error': e}, False, e[:300])
+    for i in badx[:3]:
+        ctx.violation('correspondence:Recons/Relex (join_sp, bc_b, lex_model) vs lark reconstruct() text and BasicLexer',
+                      dict(no_longer_checks='character-level model agreement', grammar=rx_meta[i][0],
+                           inputs=rx_meta[i][1]), False,
+                      'the boundary condition / lexer model and lark disagree on a reconstructed text')
+    bad, errs = ctx.coq_bad_indices('c19', IMPORTS, 'check_case', cases, chunk=ctx.scale(25, 60))
     for e in errs:
         ctx.violation('correspondence:coq-eval', {'error': e}, False, e[:300])
     already = any(v['found'] for v in ctx.violations if v.get('key') is None)
